@@ -461,6 +461,8 @@ def run(ctx: RuleContext, p: Program) -> None:
     ctx.try_rule(rule_linesplit, p, g, 'LINESPLIT')
     ctx.try_rule(rule_lens, p, g, 'LENS')
     ctx.try_rule(rule_bc_spaced, p, g, 'BC-SPACED')
+    from . import bcline
+    ctx.try_rule(bcline.rule_bc_line, p, 'BC-LINE')
     ctx.try_rule(rule_fmt_lang, p, g, 'FMT-LANG')
     ctx.try_rule(rule_esc_table, p, g, 'ESC-TABLE')
     ctx.try_rule(rule_default_lit, p, g, 'DEFAULT-LIT')
